@@ -811,6 +811,110 @@ class ImagesEmptyCell(Contract):
             "" if inputs["same_variant"] else ", %r: {%r: {}}" % (inputs["V2"], inputs["A2"]))
 
 
+
+class ImagesWriteValidates(Contract):
+    """Images.serialize on {V1: {A: {I1}}, V2: {A: {I2}}} with I1 valid and I2 ARBITRARY (every attribute symbolic; its path may or may not
+    equal I1's; either variant order): a normal return means I2 satisfies every documented rule too -- every image of every cell is
+    validated on its own, whatever it shares with an image written before (C06)."""
+    name = "productmd.images.Images.serialize[second image arbitrary]"
+    key = "ser:images.Images:validates"
+
+    def __init__(self, src, T):
+        self.src, self.T = src, T
+
+    def setup(self, E):
+        from .sections import _sv_fields
+        m = E.instantiate(("images", "Images"))
+        _sv_fields(E, m.fields["compose"], ["id", "type", "date", "respin"], "compose")
+        E.assume(F.valid_compose(self.T, m.fields["compose"]))
+        V1 = SV(sym.Val.VStr(z3.Const("V1", sym.S)))
+        V2 = SV(sym.Val.VStr(z3.Const("V2", sym.S)))
+        A = SV(sym.Val.VStr(z3.Const("A", sym.S)))
+        E.assume(Not(eq(V1, V2)))
+        ims = []
+        for tag in ("I1", "I2"):
+            im = E.instantiate(("images", "Image"), [m])
+            f = _sv_fields(E, im, [a for a in IMAGE_FIELDS if a != "additional_variants"], tag)
+            f["additional_variants"] = []
+            im.fields["additional_variants"] = []
+            ims.append((im, f))
+        E.assume(F.valid_image(self.T, ims[0][0]))
+        images = E.models.new_dict("images")
+        cells = []
+        for v, (im, f) in zip((V1, V2), ims):
+            c = E.models.new_dict("cell")
+            c.entries.append(Entry(A, True, [im]))
+            cells.append((v, c))
+        if E.decide(E.fresh("variants_reversed", z3.BoolSort())):
+            cells.reverse()
+        for k, v in cells:
+            images.entries.append(Entry(k, True, v))
+        m.fields["images"] = images
+        return {"m": m, "i2": ims[1][0], "f2": ims[1][1], "f1": ims[0][1], "data": E.models.new_dict("doc")}
+
+    def call(self, E, st):
+        return E.call(E.getattr_(st["m"], "serialize"), [st["data"]])
+
+    def post(self, E, st, out):
+        valid2 = F.valid_image(self.T, st["i2"])
+        if out.kind == "raise":
+            return {"raises_only_TypeError_ValueError": out.exc_cls in (TypeError, ValueError), "raises_only_if_invalid": Not(valid2)}
+        return {"writes_only_valid_object": valid2}
+
+    def concretise(self, model, st):
+        def val(v):
+            return [val(x) for x in v] if isinstance(v, list) else concretise.value_of(model, v)
+        return {"f1": dict((a, val(v)) for a, v in st["f1"].items()), "f2": dict((a, val(v)) for a, v in st["f2"].items())}
+
+    def sample_inputs(self, rng):
+        good = {"path": "a.iso", "mtime": 1, "size": 2, "volume_id": None, "type": "dvd", "format": "iso", "arch": "x86_64", "disc_number": 1,
+                "disc_count": 1, "checksums": {"sha256": "a" * 64}, "implant_md5": None, "bootable": False, "subvariant": "S", "unified": False,
+                "additional_variants": []}
+        for path2 in ("a.iso", "b.iso"):
+            for k, bad in (("type", "bogus"), ("format", "zip!"), ("size", "1"), ("mtime", None), ("disc_number", 1.5), ("implant_md5", "xyz"),
+                           ("bootable", "yes"), ("volume_id", ""), ("checksums", {}), (None, None)):
+                f2 = dict(good, path=path2)
+                if k:
+                    f2[k] = bad
+                yield {"f1": dict(good), "f2": f2}
+
+    def native_eval(self, inputs):
+        mod = self.src.mods["images"]
+        m = mod.Images()
+        m.compose.id, m.compose.type, m.compose.date, m.compose.respin = "F-21-20141201.0", "production", "20141201", 0
+        ims = []
+        for f in (inputs["f1"], inputs["f2"]):
+            im = mod.Image(m)
+            for a, v in copy.deepcopy(f).items():
+                setattr(im, a, v)
+            ims.append(im)
+        try:
+            ims[0].validate()
+        except Exception:
+            return ("skip", None), None
+        try:
+            ims[1].validate()
+            valid2 = True
+        except (TypeError, ValueError):
+            valid2 = False
+        except Exception:
+            return ("skip", None), None
+        for order in ((0, 1), (1, 0)):
+            cells = [("Server", {"x86_64": set([ims[0]])}), ("Workstation", {"x86_64": set([ims[1]])})]
+            m.images = dict(cells[i] for i in order)
+            nat = native_call(m.serialize, {})
+            if nat[0] == "return" and not valid2:
+                return nat, {"writes_only_valid_object": False}
+        if nat[0] == "raise":
+            return nat, {"raises_only_TypeError_ValueError": nat[1] in (TypeError, ValueError), "raises_only_if_invalid": not valid2}
+        return nat, {"writes_only_valid_object": valid2}
+
+    def describe(self, inputs):
+        diff = dict((k, v) for k, v in inputs["f2"].items() if inputs["f1"].get(k) != v)
+        return "Images manifest with a valid image under Server/x86_64 and a second image under Workstation/x86_64 %s written" % (
+            "differing in %r" % diff if diff else "equal to it")
+
+
 class ImageReaderValid(Contract):
     """Image.deserialize(record) on a current-format record that is valid except for ONE corruption of field k (its value replaced by an
     arbitrary JSON value, or the key deleted): a normal return means the key was present or optional, and the loaded image satisfies
@@ -919,5 +1023,5 @@ def ast_only_writer(run, src, module, cls, attr, allowed):
 
 
 def contracts(src, T):
-    return [ImagesAdd(src, T, 0), ImagesAdd(src, T, 1), ImagesAdd(src, T, 2), IdentifyObjEqDict(src, T), Add11Refile(src, T), ImagesRoundTrip(src, T), ImagesEmptyCell(src, T), ImagesAddAny(src, T)] + \
+    return [ImagesAdd(src, T, 0), ImagesAdd(src, T, 1), ImagesAdd(src, T, 2), IdentifyObjEqDict(src, T), Add11Refile(src, T), ImagesRoundTrip(src, T), ImagesEmptyCell(src, T), ImagesAddAny(src, T), ImagesWriteValidates(src, T)] + \
         [ImageReaderValid(src, T, k, mode) for k in IMAGE_FIELDS for mode in ("corrupt", "delete")]
